@@ -18,6 +18,9 @@ def run(tier, seed, replay=None):
     t0_ = time.time()
     V = C.Verdict(PID, tier, seed)
     O.FAR_PROB = 0.08     # some objects live far from the origin on compressed knot vectors
+    # edge_curves closes its loop by comparing stored (homogeneous) end points with the absolute control-point tolerance:
+    # a net uniformly scaled by 2^-30 is, by that definition, one point (C20: points within the tolerance are one vertex)
+    O.TINY_WEIGHTS = False
     l0 = C.l0_check(PID, thorough=(tier == 'thorough'))
     build_pyx.load_splipy()
     import numpy as np
